@@ -43,7 +43,7 @@ TraceInit == Init /\ l = 1 /\ auto = FALSE /\ pid = [p \in TracePubs |-> ""]
 Reset ==
     /\ Ev("reset")
     /\ lpc' = "init" /\ cur' = None /\ reg' = {} /\ sentCur' = {} /\ fanCur' = None /\ fanStage' = ""
-    /\ repl' = (IF E.replayer = "none" THEN "none" ELSE "alive") /\ stored' = <<>> /\ lastPut' = "" /\ repErr' = FALSE
+    /\ repl' = (IF E.replayer = "none" THEN "none" ELSE "alive") /\ stored' = <<>> /\ rcap' = E.cap /\ lastPut' = "" /\ repErr' = FALSE
     /\ rrem' = <<>> /\ rfail' = FALSE /\ rsent' = FALSE /\ rendv' = ""
     /\ spc' = [s \in Subs |-> "idle"] /\ stop' = [s \in Subs |-> {}] /\ lastid' = [s \in Subs |-> None]
     /\ canc' = {} /\ dbuf' = [s \in Subs |-> "none"] /\ dclosed' = {} /\ errOcc' = {}
